@@ -438,6 +438,25 @@ def proof_stage(rep: Report, pid, gen_scripts, modules, driver=None, extra_sourc
     return {'ok': ok and not broken, 'broken': broken, 'gen': gen_info, 'build_ok': ok}
 
 
+GEN_ERRORS = []
+
+
+def tolerant(f):
+    """Decorator for op generators that look at the real code's output (tie / sweep generators): a
+    malformed output must not abort the check before the ordinary runs had a chance to exhibit the
+    failing input; the error is kept and reported as a broken tie by `standard_check`."""
+    import functools
+
+    @functools.wraps(f)
+    def g(*a, **k):
+        try:
+            return f(*a, **k)
+        except Exception as e:
+            GEN_ERRORS.append(f'{f.__module__}.{f.__name__}: real code produced output the generator cannot read: {e!r}')
+            return []
+    return g
+
+
 # ------------------------------------------------------------------ the standard flow
 
 def standard_check(pid, argv, *, gen_scripts, modules, driver, extra_sources, harness_name,
@@ -529,6 +548,7 @@ def standard_check(pid, argv, *, gen_scripts, modules, driver, extra_sources, ha
         broken.append('driver executable missing')
     if extra_stage is not None:
         extra_stage(rep, broken, exe, tier)
+    broken.extend(GEN_ERRORS)
     rep.cov['distinct_nontrivial'] = len(distinct)
     if broken and not found_input and exe:
         # the property is no longer shown to hold: search harder for a failing input
